@@ -136,7 +136,7 @@ fn gen_queries(prop: &str, n: usize, seed: u64, out: &Path, cap: usize) {
         }
     }
     for b in positions.iter() {
-        sink.begin(&json!({"prop": prop, "fen": b.as_fen()}));
+        sink.begin(&json!({"prop": prop, "fen": crate::proj::own_fen(b.raw())}));
         let ev = query_one(&ctx, b, prop);
         sink.emit(&ev);
     }
@@ -191,7 +191,7 @@ fn regen(prop: &str, input: &Path, out: &Path) {
             let raw = proj::raw_from_json(&ev["pos"]);
             let b = owlchess::Board::try_from(raw).expect("replay position must be valid");
             let ctx = query::Ctx::new();
-            sink.begin(&json!({"prop": prop, "fen": b.as_fen()}));
+            sink.begin(&json!({"prop": prop, "fen": crate::proj::own_fen(b.raw())}));
             sink.emit(&query_one(&ctx, &b, prop));
         }
         Some(kind @ ("fen" | "fenparse" | "san" | "uci" | "parse" | "rawval" | "sym" | "cap" | "hashpair" | "magic")) => {
@@ -484,7 +484,7 @@ fn gen_chain(prop: &str, n: usize, rng: &mut StdRng, sink: &mut Sink) {
             "C17" => (b.clone(), "walk", rng.gen_range(8..40)),
             _ => (b.clone(), "mixed", rng.gen_range(8..45)),
         };
-        sink.begin(&json!({"prop": prop, "session_start": start.as_fen()}));
+        sink.begin(&json!({"prop": prop, "session_start": crate::proj::own_fen(start.raw())}));
         let evs = chain::session(rng, &ctx, &start, nops, profile, with_san);
         if sink.room() < evs.len() {
             sink.rotate();
@@ -502,7 +502,7 @@ fn gen_notation(prop: &str, n: usize, rng: &mut StdRng, sink: &mut Sink) {
     match prop {
         "C08" => {
             for b in positions.iter() {
-                sink.begin(&json!({"prop": prop, "fen": b.as_fen()}));
+                sink.begin(&json!({"prop": prop, "fen": crate::proj::own_fen(b.raw())}));
                 sink.emit(&notation::fen_board_event(b));
                 let fen = b.as_fen();
                 for t in notation::noncanonical_fens(rng, &fen) {
@@ -510,7 +510,7 @@ fn gen_notation(prop: &str, n: usize, rng: &mut StdRng, sink: &mut Sink) {
                     sink.emit(&notation::fen_parse_event(&t));
                 }
                 let r = notation::random_raw(rng);
-                sink.begin(&json!({"prop": prop, "rawfen": r.as_fen()}));
+                sink.begin(&json!({"prop": prop, "rawfen": crate::proj::own_fen(&r)}));
                 sink.emit(&notation::fen_raw_event(&r));
                 let t = notation::mutate(rng, &r.as_fen());
                 sink.emit(&notation::fen_parse_event(&t));
@@ -540,7 +540,7 @@ fn gen_notation(prop: &str, n: usize, rng: &mut StdRng, sink: &mut Sink) {
                         || m.src_cell().piece() == Some(owlchess::Piece::King);
                     if special {
                         if let Ok(Ok(nb)) = std::panic::catch_unwind(std::panic::AssertUnwindSafe(|| b.make_move(*m))) {
-                            sink.begin(&json!({"prop": prop, "fen": b.as_fen(), "move": m.to_string()}));
+                            sink.begin(&json!({"prop": prop, "fen": crate::proj::own_fen(b.raw()), "move": m.to_string()}));
                             sink.emit(&notation::fen_board_event(&nb));
                             reached += 1;
                             here += 1;
@@ -568,13 +568,13 @@ fn gen_notation(prop: &str, n: usize, rng: &mut StdRng, sink: &mut Sink) {
         }
         "C09" => {
             for b in positions.iter() {
-                sink.begin(&json!({"prop": prop, "fen": b.as_fen()}));
+                sink.begin(&json!({"prop": prop, "fen": crate::proj::own_fen(b.raw())}));
                 sink.emit(&notation::san_event(rng, b));
             }
         }
         "C10" => {
             for b in positions.iter() {
-                sink.begin(&json!({"prop": prop, "fen": b.as_fen()}));
+                sink.begin(&json!({"prop": prop, "fen": crate::proj::own_fen(b.raw())}));
                 sink.emit(&notation::uci_event(b));
             }
         }
@@ -731,7 +731,7 @@ fn gen_misc(prop: &str, n: usize, rng: &mut StdRng, sink: &mut Sink) {
                 sink.emit(&misc::rawval_event(&r));
             }
             for r in misc::raw_stream(rng, &valid, n) {
-                sink.begin(&json!({"prop": prop, "rawfen": r.as_fen(), "ep": r.ep_source.map(|c| c.index())}));
+                sink.begin(&json!({"prop": prop, "rawfen": crate::proj::own_fen(&r), "ep": r.ep_source.map(|c| c.index())}));
                 sink.emit(&misc::rawval_event(&r));
             }
             // every e.p. mark on every square x both sides, all 16 rights sets, on two skeletons
@@ -775,7 +775,7 @@ fn gen_misc(prop: &str, n: usize, rng: &mut StdRng, sink: &mut Sink) {
         }
         "C18" => {
             for b in posgen::mixed(rng, n).iter() {
-                sink.begin(&json!({"prop": prop, "fen": b.as_fen()}));
+                sink.begin(&json!({"prop": prop, "fen": crate::proj::own_fen(b.raw())}));
                 for ev in misc::sym_events(b) {
                     sink.emit(&ev);
                 }
@@ -786,7 +786,7 @@ fn gen_misc(prop: &str, n: usize, rng: &mut StdRng, sink: &mut Sink) {
             sink.emit(&misc::wf_sweep_event());
             let pos = posgen::mixed(rng, n);
             for b in pos.iter() {
-                sink.begin(&json!({"prop": prop, "fen": b.as_fen()}));
+                sink.begin(&json!({"prop": prop, "fen": crate::proj::own_fen(b.raw())}));
                 sink.emit(&misc::cap_event(b));
             }
             // the longest texts (dense boards, five-digit counters) and, through the validator, OVERFULL armies:
@@ -794,7 +794,7 @@ fn gen_misc(prop: &str, n: usize, rng: &mut StdRng, sink: &mut Sink) {
             // goes on to the generators with their fixed-capacity list)
             for i in 0..12 {
                 let b = if i < posgen::DENSE_FENS.len() { owlchess::Board::from_fen(posgen::DENSE_FENS[i]).unwrap() } else { posgen::dense(rng) };
-                sink.begin(&json!({"prop": prop, "fen": b.as_fen()}));
+                sink.begin(&json!({"prop": prop, "fen": crate::proj::own_fen(b.raw())}));
                 sink.emit(&misc::cap_event(&b));
             }
             for f in ["kBQQQQQQ/BR5Q/Q6Q/Q6Q/Q6Q/Q6Q/Q6Q/QQQQQQQK w - - 0 1", "1QQQQQQ1/Q6Q/Q6Q/Q6Q/Q3Q2Q/2Q4Q/BR5Q/k1KQ1QQ1 w - - 0 1",
@@ -818,7 +818,7 @@ fn gen_misc(prop: &str, n: usize, rng: &mut StdRng, sink: &mut Sink) {
                     raw.cells[*s] = owlchess::Cell::from_parts(side, if rng.gen_bool(0.8) { owlchess::Piece::Queen } else { owlchess::Piece::Rook });
                 }
                 raw.side = side;
-                sink.begin(&json!({"prop": prop, "rawfen": raw.as_fen()}));
+                sink.begin(&json!({"prop": prop, "rawfen": crate::proj::own_fen(&raw)}));
                 if let Ok(Ok(b)) = std::panic::catch_unwind(|| owlchess::Board::try_from(raw)) {
                     sink.emit(&misc::cap_event(&b));
                 }
@@ -833,14 +833,14 @@ fn gen_misc(prop: &str, n: usize, rng: &mut StdRng, sink: &mut Sink) {
             for st in starts.iter() {
                 let b = misc::climb(rng, st, iters);
                 best = best.max(misc::semi_count(&b));
-                sink.begin(&json!({"prop": prop, "climbed": b.as_fen()}));
+                sink.begin(&json!({"prop": prop, "climbed": crate::proj::own_fen(b.raw())}));
                 let mut ev = misc::cap_event(&b);
                 ev["climbed"] = json!(true);
                 sink.emit(&ev);
                 // neighbours of the maximiser
                 for _ in 0..20 {
                     let nb = posgen::mutate(rng, &b);
-                    sink.begin(&json!({"prop": prop, "fen": nb.as_fen()}));
+                    sink.begin(&json!({"prop": prop, "fen": crate::proj::own_fen(nb.raw())}));
                     sink.emit(&misc::cap_event(&nb));
                 }
             }
@@ -858,7 +858,7 @@ fn gen_misc(prop: &str, n: usize, rng: &mut StdRng, sink: &mut Sink) {
                             for r2 in rch {
                                 let t = format!("{f1}{r1}{f2}{r2}");
                                 for what in ["from_uci", "from_san", "uci"] {
-                                    sink.begin(&json!({"prop": prop, "what": what, "text": t, "fen": b.as_fen()}));
+                                    sink.begin(&json!({"prop": prop, "what": what, "text": t, "fen": crate::proj::own_fen(b.raw())}));
                                     let mut ev = notation::parse_event(what, &t, b);
                                     ev["pos"] = proj::raw_json(b.raw());
                                     sink.emit(&ev);
@@ -866,7 +866,7 @@ fn gen_misc(prop: &str, n: usize, rng: &mut StdRng, sink: &mut Sink) {
                             }
                         }
                         for t in [format!("N{f1}{r1}"), format!("{f1}{r1}"), format!("Nb{r1}c3"), format!("{f1}x{f1}{r1}"), format!("{f1}{r1}=Q")] {
-                            sink.begin(&json!({"prop": prop, "what": "from_san", "text": t, "fen": b.as_fen()}));
+                            sink.begin(&json!({"prop": prop, "what": "from_san", "text": t, "fen": crate::proj::own_fen(b.raw())}));
                             let mut ev = notation::parse_event("from_san", &t, b);
                             ev["pos"] = proj::raw_json(b.raw());
                             sink.emit(&ev);
@@ -882,7 +882,7 @@ fn gen_misc(prop: &str, n: usize, rng: &mut StdRng, sink: &mut Sink) {
                 for f in files.chars() {
                     for r in 1..=8 {
                         for t in [format!("{f}{r}"), format!("{f}{r}=Q"), format!("{}x{f}{r}", files.chars().nth(rng.gen_range(0..8)).unwrap())] {
-                            sink.begin(&json!({"prop": prop, "san": t, "fen": b.as_fen()}));
+                            sink.begin(&json!({"prop": prop, "san": t, "fen": crate::proj::own_fen(b.raw())}));
                             let mut ev = notation::parse_event("from_san", &t, b);
                             ev["pos"] = proj::raw_json(b.raw());
                             sink.emit(&ev);
@@ -925,7 +925,7 @@ fn gen_from(prop: &str, posfile: &Path, out: &Path, cap: usize) {
         let raw = proj::raw_from_json(&v["pos"]);
         if prop == "C11" {
             // raw boards, valid or not: the verdict of validation is the observation
-            sink.begin(&json!({"prop": prop, "rawfen": raw.as_fen(), "fam": v["fam"]}));
+            sink.begin(&json!({"prop": prop, "rawfen": crate::proj::own_fen(&raw), "fam": v["fam"]}));
             sink.emit(&misc::rawval_event(&raw));
             continue;
         }
@@ -936,7 +936,7 @@ fn gen_from(prop: &str, posfile: &Path, out: &Path, cap: usize) {
                 continue;
             }
         };
-        sink.begin(&json!({"prop": prop, "fen": b.as_fen(), "fam": v["fam"]}));
+        sink.begin(&json!({"prop": prop, "fen": crate::proj::own_fen(b.raw()), "fam": v["fam"]}));
         match prop {
             "C04" | "C05" => {
                 let mut evs = session::all_moves_once(&b);
